@@ -41,7 +41,8 @@ type ClientPlan struct {
 	StallOn   bool
 	StallAt   int
 	// the first step is enabled only after these clients have finished
-	StartAfterDone []int
+	StartAfterDone   []int
+	StartAfterCancel bool
 }
 
 type RespRecord struct {
@@ -53,6 +54,7 @@ type RespRecord struct {
 	Trailer http.Header
 	Err     string
 	Step    int
+	Time    time.Duration
 }
 
 type RecvFrame struct {
@@ -416,6 +418,7 @@ func (c *Client) exec(s *Step) error {
 func (c *Client) recordResp(r *RespRecord) {
 	c.W.mu.Lock()
 	r.Step = c.W.Step
+	r.Time = c.W.Now()
 	c.Resps = append(c.Resps, r)
 	c.W.mu.Unlock()
 }
